@@ -536,3 +536,20 @@ more("C14",
 more("C18",
      note="The harness tolerates files vanishing under its reads, waits (bounded) for threads the code under test started and for the disk to stand still before judging it, and treats "
           "concurrent put_item calls as drift from the step order while still judging the disk.")
+
+
+# ---- sixth round of independently seeded changes
+more("C02",
+     text="A cascade started from a level that holds no tile must be refused (ValueError / non-zero exit) with the directory left byte-identical, through the API, the CLI entry point, a "
+          "filtered cascade, Builder.cascade and 2 processes (spec: Refused, RefusedLeavesDirectoryAlone; the guard was added to /repo with the stale-parent repair). Cascades also run "
+          "under an application that escalates RuntimeWarnings to errors, and with a custom view-returning merger on constant-valued leaves.")
+more("C11",
+     text="Maps with 1, 2, 4 or 5 colour planes on every map shape, incl. maps of 1-5 rows (result shape = request shape + the map's colour axes).")
+more("C06",
+     text="Colour samples are also written into a bottom-up format (fits).")
+more("C19",
+     text="Real-process runs include a second and third failing operation in one process after an earlier one has already failed, and a parallel transform under `python -O` (assert "
+          "statements compiled away).")
+more("C12",
+     note="Depths 27-30 are probed on every run; failures at depths 29-30 are the recorded known finding (double precision of the half-space scores), reported as KNOWN-FINDING under a "
+          "key of their own.")
